@@ -44,7 +44,7 @@ type responseWriter struct {
 	size        int          // The written size of the response.
 	beforeFuncs []BeforeFunc // The list of functions to be called before written to the response.
 
-	writeHeaderOnce sync.Once
+	writeHeaderLock sync.Mutex
 }
 
 // BeforeFunc is a function that is called before the ResponseWriter is written.
@@ -59,21 +59,31 @@ func NewResponseWriter(method string, w http.ResponseWriter) ResponseWriter {
 }
 
 func (w *responseWriter) callBefore() {
-	for i := len(w.beforeFuncs) - 1; i >= 0; i-- {
-		w.beforeFuncs[i](w)
+	// Detach the functions first, so that none of them runs a second time when one
+	// of them panics and the status is sent later on (e.g. by Recovery).
+	beforeFuncs := w.beforeFuncs
+	w.beforeFuncs = nil
+	for i := len(beforeFuncs) - 1; i >= 0; i-- {
+		beforeFuncs[i](w)
 	}
 }
 
 func (w *responseWriter) WriteHeader(s int) {
-	w.writeHeaderOnce.Do(func() {
-		if w.Written() {
-			return
-		}
+	w.writeHeaderLock.Lock()
+	defer w.writeHeaderLock.Unlock()
 
-		w.callBefore()
-		w.ResponseWriter.WriteHeader(s)
-		atomic.StoreInt32(&w.status, int32(s))
-	})
+	if w.Written() {
+		return
+	}
+
+	// NOTE: The response only counts as written once the underlying writer has
+	// taken the status. A panic on the way there (raised by a before function, or
+	// by the underlying writer rejecting the code) must leave the response open,
+	// otherwise nobody - the Recovery middleware in particular - is able to send a
+	// status afterwards and the client ends up with an implicit 200.
+	w.callBefore()
+	w.ResponseWriter.WriteHeader(s)
+	atomic.StoreInt32(&w.status, int32(s))
 }
 
 func (w *responseWriter) Write(b []byte) (size int, err error) {
